@@ -136,9 +136,9 @@ type Graph struct {
 	nn    int
 	nf    int
 	// CondRPN maps the expression text found in the parsed definitions back to RPN
-	CondRPN    map[string]string
+	CondRPN map[string]string
 	// XPath: the definitions declare XPath as their expression language and every condition is written in XPath
-	XPath bool
+	XPath      bool
 	Executable bool
 	ProcID     string
 }
